@@ -188,7 +188,7 @@ def dispatch_classes(ctx):
     raise AnalysisError("anchor vanished: parse_frame's dispatch list")
 
 
-@rule("R04.3", ["C04", "C01", "C11"], "T-ORD", floor=1)
+@rule("R04.3", ["C04", "C01", "C11", "C09"], "T-ORD", floor=1)
 def r04_3(ctx):
     """RSTACK restarts numbering: on every path of rstack_frame_received both frame counters are set to zero
     before the upward notification, whose argument is the frame's own reset code, and the link state becomes
